@@ -260,13 +260,22 @@ def normalize_case(draw):
         limit = draw(st.sampled_from(LIMITS + [None, "64 B", "1 KiB"]))
     prev = None
     if has_auto and draw(st.integers(0, 2)) > 0:
-        prev = draw(C.shape_chunks(shape, zero_p=0.1))
+        prev = _single_zero_on_empty_axes(draw(C.shape_chunks(shape, zero_p=0.1)))
     return {"shape": shape, "spec": spec, "limit": limit, "dtype": draw(st.sampled_from(NDTYPES)), "prev": prev}
 
 
 def _with_zero(draw, parts):
+    """Insert one explicit zero-size chunk -- except on a zero-length axis: (0, 0) there is doubly degenerate (rechunk
+    returns an all-empty array untouched, whatever the target) and is not explored."""
+    if sum(parts) == 0:
+        return parts
     pos = draw(st.integers(0, len(parts)))
     return parts[:pos] + [0] + parts[pos:]
+
+
+def _single_zero_on_empty_axes(chunks):
+    """Zero-length axes keep the single chunk (0,) (see _with_zero)."""
+    return [[0] if sum(c) == 0 else list(c) for c in chunks]
 
 
 # --------------------------------------------------------------------------
@@ -436,6 +445,7 @@ def rechunk_case(draw):
     top = {1: 14, 2: 9, 3: 5}[nd]
     shape = [draw(st.integers(0 if draw(st.integers(0, 9)) == 0 else 1, top)) for _ in range(nd)]
     arr = draw(C.arr(shape=shape, dtypes=("i8", "f8", "u1", "c16"), fills=("arange", "small"), zero_p=0.1))
+    arr["chunks"] = _single_zero_on_empty_axes(arr["chunks"])
     form = draw(st.sampled_from(["tuple", "tuple", "tuple", "list", "dict", "scalar"]))
     if style == "transpose" and nd >= 2:
         # source fine along axis 0 / coarse along the last axis, target the opposite: the classic multi-stage case
